@@ -1147,3 +1147,10 @@ Proof.
   intros vec c st W. destruct (impl_gen input_of true true true vec c st) as [r|] eqn:E;
     [rewrite (impl_gen_sound _ _ _ _ _ _ W E); reflexivity|exfalso; exact (repaired_never_raises _ _ _ _ _ E)].
 Qed.
+
+(* both repairs have landed (fixed_D21 = fixed_D32 = true): the full statement, unconditionally *)
+Theorem full_statement_holds : full_statement.
+Proof. exact (full_when_repaired eq_refl eq_refl). Qed.
+
+Theorem impl_is_spec : forall vec c st, wf c = true -> impl vec c st = Some (spec c st).
+Proof. intros vec c st W. exact (full_of_repaired_model vec c st W). Qed.
